@@ -207,6 +207,7 @@ def run_scan(case: dict[str, Any]) -> dict[str, Any]:
 
     async def go() -> None:
         lis, tasks = _link(st)
+        st.last_time_active = asyncio.get_running_loop().time()
         with patched_connections(lis):
             try:
                 await scanner.run()
@@ -220,6 +221,12 @@ def run_scan(case: dict[str, Any]) -> dict[str, Any]:
         for t in tasks:
             t.cancel()
 
+    # the server loop's inactivity reset (10 s without a request) reads time.time(): give it the
+    # virtual clock too, so that a descheduled worker process cannot change the ECU's behaviour
+    import gallia.services.uds.server as server_mod
+
+    real_time = server_mod.time
+    server_mod.time = lambda: asyncio.get_event_loop().time()  # type: ignore[assignment]
     try:
         vloop.run(go(), horizon=3600.0 * 24 * 30)
     except (TimeoutError, vloop.BlockedForever):
@@ -227,6 +234,8 @@ def run_scan(case: dict[str, Any]) -> dict[str, Any]:
     except SystemExit as e:  # raised inside a task
         out["end"] = "exit"
         out["exc"] = f"SystemExit({e.code})"
+    finally:
+        server_mod.time = real_time  # type: ignore[assignment]
     if srv.n_req > cap:
         out["end"] = "hang"
         out["exc"] = f"request cap {cap} reached"
